@@ -14,6 +14,7 @@ import asyncio
 import errno
 import select
 import selectors
+import signal
 import socket
 import weakref
 
@@ -314,9 +315,40 @@ def run_on_vloop(coro_factory, setup=None):
         setup(loop)
     res, stop = None, None
     try:
-        res = loop.run_until_complete(coro_factory(loop))
+        with cpu_guard():
+            res = loop.run_until_complete(coro_factory(loop))
     except Hang as h:
         stop = "HANG: " + str(h)
     except Runaway as r:
         stop = "RUNAWAY: " + str(r)
     return res, stop, loop
+
+
+class cpu_guard:
+    """CPU guard: one workload on the virtual loop needs milliseconds of processor time; the budget is counted in this process' own user-mode CPU
+    seconds (ITIMER_VIRTUAL), so machine load cannot make it fire - only code that does not terminate (a decoding loop without end)."""
+
+    def __enter__(self):
+        self.armed = False
+        try:
+            signal.signal(signal.SIGVTALRM, _cpu_exceeded)
+            signal.setitimer(signal.ITIMER_VIRTUAL, CPU_BUDGET[0])
+            self.armed = True
+        except (ValueError, OSError, AttributeError):
+            pass                # (not the main thread / platform without the timer: no guard, the shard watchdog remains)
+        return self
+
+    def __exit__(self, *a):
+        if self.armed:
+            signal.setitimer(signal.ITIMER_VIRTUAL, 0)
+        return False
+
+
+CPU_BUDGET = [float(__import__("os").environ.get("VERIF_CPU_BUDGET", "15"))]
+
+
+def _cpu_exceeded(signum, frame):
+    b = CPU_BUDGET[0]
+    CPU_BUDGET[0] = 1.0         # the tree under test has shown that it can spin: later workloads of this process get a short leash
+    where = f"{frame.f_code.co_filename.rsplit('/', 2)[-1]}:{frame.f_lineno} in {frame.f_code.co_name}" if frame is not None else "?"
+    raise Runaway(f"one workload used more than {b:.0f} s of CPU time without finishing (executing {where}): the code does not terminate")
